@@ -294,6 +294,9 @@ class Gen:
         else:
             t = r.choice(self.enums())
             sch = ref(t)
+        if k in ("string", "integer", "boolean") and r.random() < 0.2:
+            sch["default"] = {"string": "dflt", "integer": 3, "boolean": True}[k]
+            self.features.add("param_with_default")
         p = {"name": name, "in": loc, "required": required, "schema": sch}
         if not required and loc != "path":
             if r.random() < 0.5:
